@@ -118,6 +118,9 @@ def run(res):
     for i, s in enumerate(big):
         items.append(("bigint:%d" % i, "x = " + s + "\n", "exec"))
         items.append(("bigint-expr:%d" % i, s, "eval"))
+    from .. import numlits
+    for i, prog in enumerate(numlits.as_programs(numlits.boundary_literals(rng, thorough))):
+        items.append(("numlits:%d" % i, prog, "exec"))
     parts = core.pmap(_work, tw.batches(items, 30), init=tw.init_state, initargs=(bins,))
     for p in parts:
         res.merge(p)
